@@ -32,7 +32,7 @@ ASSUMPTIONS = [
     "T is exercised for ndim <= 2 only (documented: transpose() without arguments needs explicit dims for ndim > 2)",
     "broadcast targets contain all of the array's non-singleton dimensions with the same labels (documented usage)",
 ]
-MANDATORY = ["transpose", "swapaxes", "rollaxis", "newaxis", "newaxis:values", "squeeze", "repeat", "broadcast", "broadcast_arrays",
+MANDATORY = ["broadcast:omits-singleton", "transpose", "swapaxes", "rollaxis", "newaxis", "newaxis:values", "squeeze", "repeat", "broadcast", "broadcast_arrays",
              "square-equal-labels", "composition", "ndim:4", "ndim:0"]
 
 ATTRS = {"units": "m", "hist": [1, {"k": 2}]}
@@ -252,8 +252,10 @@ def run_case(case):
 
     # ---- broadcast ----------------------------------------------------------------------------
     def t_broadcast():
-        tdims = list(dims) + list(case["extra"])
         rnd = case["border"]
+        # singleton dimensions of the array may be left out of the target (they are squeezed away), others must be kept
+        omitted = [d for k, d in enumerate(dims) if len(lab_of[d]) == 1 and (rnd >> (k + 3)) & 1]
+        tdims = [d for d in dims if d not in omitted] + list(case["extra"])
         order = list(itertools.permutations(range(len(tdims))))[rnd % max(1, len(list(itertools.permutations(range(len(tdims)))))) if len(tdims) <= 5 else 0]
         tdims = [tdims[i] for i in order]
         tl = {}
@@ -265,7 +267,9 @@ def run_case(case):
         taxes = [da.Axis(core.label_array(tl[d]), d) for d in tdims]
         targets = [("list-of-Axis", list(taxes)), ("DimArray", da.DimArray(np.zeros([len(tl[d]) for d in tdims]), axes=[ax.copy() for ax in taxes])),
                    ("OrderedDict", OrderedDict((d, core.label_array(tl[d])) for d in tdims))]
-        newd = [d for d in tdims if d not in dims or (len(lab_of[d]) == 1)]
+        newd = [d for d in tdims if d not in dims or (len(lab_of[d]) == 1 and len(tl[d]) != 1)] + omitted
+        if omitted:
+            cl.add("broadcast:omits-singleton")
         for tname, t in targets:
             what = "broadcast(%s dims=%s labels=%s) on dims=%s labels=%s" % (tname, tdims, [tl[d] for d in tdims], dims, labels)
             res = lib(lambda: a.broadcast(t), what=what, sig={"op": "broadcast"})
